@@ -1,7 +1,7 @@
 """Source of MANIFEST.json (bin/mkmanifest). A property appears as a check only if checks/<id>.py exists."""
 
 # checks registered in MANIFEST.json (a check file may exist before it is ready)
-READY = ['C39', 'C42', 'C02', 'C10', 'C13', 'C47', 'C28', 'C29', 'C30', 'C32', 'C34', 'C35', 'C36', 'C37', 'C23', 'C21', 'C22', 'C19', 'C20', 'C46', 'C01', 'C03', 'C04', 'C05', 'C06', 'C07', 'C08', 'C09', 'C11', 'C12', 'C14', 'C15', 'C16', 'C17', 'C18', 'C49']
+READY = ['C40', 'C43', 'C39', 'C42', 'C02', 'C10', 'C13', 'C47', 'C28', 'C29', 'C30', 'C32', 'C34', 'C35', 'C36', 'C37', 'C23', 'C21', 'C22', 'C19', 'C20', 'C46', 'C01', 'C03', 'C04', 'C05', 'C06', 'C07', 'C08', 'C09', 'C11', 'C12', 'C14', 'C15', 'C16', 'C17', 'C18', 'C49']
 
 HOOK_COMMITS = ['6abf118d3b', '23b4e66deb', '9ed5be8760']
 
